@@ -3,7 +3,7 @@
 # Confirms in a fresh scratch worktree of /repo HEAD: demo passes without the change, suite passes with the change,
 # demo fails with the change. On success stores the seed under /verif/seeded/<Cxx>-<K>/.
 set -u
-src=$1; k=$2; p=$3
+src=$1; k=$2; p=$3; dk=${4:-$k}
 wt=/tmp/vs-$$-repo
 trap 'git -C /repo worktree remove --force $wt >/dev/null 2>&1; rm -rf $wt' EXIT
 git -C /repo worktree add -q --detach $wt HEAD || exit 2
@@ -13,9 +13,9 @@ PYTHONPATH=$wt /venv/bin/python _seed/demo$k.py >/tmp/vs-$$-clean.out 2>&1; clea
 git apply $src/mutation$k.diff || { echo "PATCH DOES NOT APPLY to current HEAD"; exit 2; }
 suite=$(/venv/bin/python -m pytest -q -p no:cacheprovider 2>&1 | tail -1)
 PYTHONPATH=$wt /venv/bin/python _seed/demo$k.py >/tmp/vs-$$-mut.out 2>&1; mut=$?
-echo "$p-$k: demo clean exit=$clean, suite with change: $suite, demo with change exit=$mut"
+echo "$p-$dk: demo clean exit=$clean, suite with change: $suite, demo with change exit=$mut"
 if [ $clean -eq 0 ] && [ $mut -ne 0 ] && echo "$suite" | grep -q "252 passed"; then
-  d=/verif/seeded/$p-$k; mkdir -p $d
+  d=/verif/seeded/$p-$dk; mkdir -p $d
   cp $src/mutation$k.diff $d/patch.diff; cp $src/demo$k.py $d/demo.py
   /venv/bin/python - "$src/meta$k.json" "$d/meta.json" "$p" "$clean" "$mut" "$suite" <<'PY'
 import json, sys
